@@ -180,6 +180,10 @@ def effects(fn: Fn) -> List[Effect]:
     for n in walk_no_nested(fn.node):
         if isinstance(n, ast.Assign) and len(n.targets) == 1 and isinstance(n.targets[0], ast.Name):
             defs.setdefault(n.targets[0].id, n.value)
+        elif isinstance(n, ast.Assign) and len(n.targets) > 1:
+            for t in n.targets:          # a = self.b = <value>: every name denotes the same (new or old) object
+                if isinstance(t, ast.Name):
+                    defs.setdefault(t.id, n.value)
         elif isinstance(n, (ast.For, ast.comprehension)):
             tgt = n.target
             for x in ast.walk(tgt):
